@@ -1,3 +1,6 @@
 Require Extraction. Require Import ExtrOcamlBasic.
-From GV Require Import BarrierModel.
-Extraction "barrier_model.ml" BarrierModel.run_case.
+From Coq Require Import List ZArith.
+From GV Require Import Sched Enum BarrierModel.
+Definition enum_case (cfg : list Z) (progs : list (list (list Z))) (depth budget : Z) :=
+  enum_case_gen glob loc tstep (init (match cfg with n :: _ => n | nil => 0%Z end) (map decode_prog progs)) depth budget.
+Extraction "barrier_model.ml" BarrierModel.run_case enum_case.
